@@ -8,12 +8,12 @@ BASE=dict(
   DevFreeAlias='FALSE', DevReplDup='FALSE', Family='"roots"', InitSizes='{0, 1, 2, 3, 4}', NSectors=4,
   UnknownSector=9, NewSector=8, Allowance=100000000, Collateral=100000000, CPrice=5, MaxNum=2, MaxIdxLen=4,
   Edges='FALSE', PF='{"ok", "expired"}', CF='{"ok", "badsig"}', SF='{"ok", "bad"}', TF='{"ok"}', Amts='{1}',
-  Signers='{"x"}', RenewKinds='{"renew"}', MaxExchanges=1, Dur=256)
+  Signers='{"x"}', RenewKinds='{"renew"}', MaxExchanges=1, Dur=256, TipChoices='{0}')
 ORDER=list(BASE.keys())
 ROOTS_INV='RootsMatchRevision Readable DoublySigned SerialisedPerContract SolventContract NonNegative AttachedExist'
 ROOTS_PROP='AbortIsNoop RootsOnlyWithCommit RevMonotone Immutable PayoutSumConstant NoHostToRenter ExactCharge SignedCommit CommitHoldsLock BadRequestIsNoop'
 ACCT_PROP=ROOTS_PROP+' CreditBacked TransferCredited DebitIsPrice PaidBeforeService InsufficientIsNoop ReplenishToTarget AttachNeedsSignature ServiceOnlyStores'
-REV_PROP=ROOTS_PROP+' CreditBacked TransferCredited AttachNeedsSignature ServiceOnlyStores'
+REV_PROP=ROOTS_PROP+' TooLateIsNoop RenewalKeepsRoots OldsFrozen CreditBacked TransferCredited AttachNeedsSignature ServiceOnlyStores'
 def emit(name, comment, over, inv=ROOTS_INV, prop=ROOTS_PROP, edges=False, view='mcview', extra=''):
     c=dict(BASE); c.update(over)
     lines=['\\* '+l for l in comment.strip().split('\n')]
@@ -102,7 +102,7 @@ emit('Host_revisions_thorough.cfg','''C08 thorough (Leg M): as quick with up to 
 emit('Host_revisions_thorough3.cfg','''C08 thorough (Leg M): THREE renter sessions interleaved, up to 2 commits, one corruption class per field''',
      dict(REV, Sessions='{1, 2, 3}', MaxNum=2, PF='{"ok", "expired"}', CF='{"ok", "stale"}', SF='{"ok", "other"}', RenewKinds='{"renew"}', Amts='{1}'), prop=REV_PROP)
 EREV=dict(Family='"revisions"', Sessions='{1, 2}', Accounts='{"a1"}', Pools='{"p1"}', InitSizes='{2}', NSectors=2, Edges='TRUE', MaxNum=99,
-          MaxExchanges=2, Allowance=600000, Collateral=1100000, Amts='{1, 600001}',
+          MaxExchanges=2, TipChoices='{0, 1, 2, 3, 147}', Allowance=600000, Collateral=1100000, Amts='{1, 600001}',
           PF='{"ok", "expired", "foreign", "tampered"}', CF='{"ok", "badsig", "stale"}', SF='{"ok", "bad", "other", "replay"}',
           RenewKinds='{"renew", "refresh", "refreshpartial"}')
 emit('Host_revisions_edges.cfg','''C08 Leg R export: a contract of 2 sectors with real unit prices (allowance 600000 units: two appended sectors
